@@ -45,6 +45,15 @@ func TestProbeC08(t *testing.T) {
 			t.Fatal(err)
 		}
 		locked, errIL := e.E.IsLocked(ctx, x.Address())
+		if os.Getenv("PROBE_DEG") != "" {
+			m := mode.DegradedReadOnly
+			if os.Getenv("PROBE_DEG") == "rw" {
+				m = mode.Degraded
+			}
+			if err := e.E.SetShardMode(e.IDs[1-holder], m, false); err != nil {
+				t.Fatal(err)
+			}
+		}
 		ts := uni.Build(uni.Spec{Kind: uni.Tombstone, Cnr: 0, ID: 3, Exp: -1, Target: 1})
 		errT := e.E.Put(ctx, ts, nil)
 		_, errG := e.E.Get(ctx, x.Address())
